@@ -195,6 +195,16 @@ func c10HostileTerms(r *rand.Rand) []wire.Term {
 		bigset.Set = append(bigset.Set, wire.Term{Tag: wire.TInteger, I: int64(i)})
 	}
 	out = append(out, bigset)
+	// sets of 9, 17 and 64 members of every kind (implementations switch algorithms by size)
+	for _, n := range []int{9, 17, 64} {
+		by, st, dt := wire.Term{Tag: wire.TSet}, wire.Term{Tag: wire.TSet}, wire.Term{Tag: wire.TSet}
+		for i := 0; i < n; i++ {
+			by.Set = append(by.Set, wire.Term{Tag: wire.TBytes, B: []byte{byte(i), 0x41}})
+			st.Set = append(st.Set, wire.Term{Tag: wire.TString, U: uint64(i % 28)})
+			dt.Set = append(dt.Set, wire.Term{Tag: wire.TDate, U: uint64(i)})
+		}
+		out = append(out, by, st, dt)
+	}
 	return out
 }
 
@@ -354,14 +364,14 @@ func c10Structural(r *rand.Rand, k int) (blocks []*wire.Block, what string) {
 		e = append(e, un(2), val(one), bin(1))
 		auth.Rules = append(auth.Rules, wire.Rule{Head: pred(Q, vx), Body: []wire.Pred{pred(P, vx)}, Exprs: []wire.Expr{e}})
 	case 11:
-		what = "10^4-entry symbol table, symbol tables repeating default and earlier names"
-		for i := 0; i < 10000; i++ {
+		what = "3000-entry symbol table, symbol tables repeating default and earlier names"
+		for i := 0; i < 3000; i++ {
 			auth.Symbols = append(auth.Symbols, fmt.Sprintf("sym%d", i))
 		}
 		auth.Symbols = append(auth.Symbols, "read", "p", "p", "")
 		facts(3)
 		later := &wire.Block{Symbols: []string{"p", "read", "sym1", "x"}, Context: &ctx, Version: &v3}
-		later.Facts = append(later.Facts, pred(P, one), pred(1024+10010, one))
+		later.Facts = append(later.Facts, pred(P, one), pred(1024+3010, one))
 		later.Checks = append(later.Checks, query([]wire.Pred{pred(P, vx)}))
 		blocks = append(blocks, later)
 	case 12:
@@ -518,7 +528,8 @@ func c10Run(c *core.C) {
 		}
 		c.Count("inputs:"+kind, 1)
 	}
-	mode := c.Idx % 4
+	// the four input kinds rotate so that every worker stride gets its share of the heavy ones
+	mode := (c.Idx + c.Idx/16) % 4
 	switch mode {
 	case 0, 1:
 		// hostile values x placements, validly signed by an attacker root
@@ -608,7 +619,7 @@ func init() {
 	core.Register(&core.Prop{
 		ID:    "C10",
 		Level: "exploration",
-		Rule: "each input goes through the whole pipeline under recover, in isolated worker processes whose journal attributes a process death (panic on a library goroutine) to the input: Unmarshal -> String, Code, Checks, GetContext, BlockCount, RootKeyID, RevocationIds, Serialize, GetBlockID -> AuthorizerFor (signer root, random key, key map), Authorizer -> AddFact/Rule/Check/Policy, SerializePolicies, Authorize x2, Query, PrintWorld, Reset, Authorize -> CreateBlock/Append/Seal (+ re-verify) -> LoadPolicies on the same bytes. Inputs: (a) schema-valid tokens written by the independent writer R3 and VALIDLY SIGNED with an attacker root so that evaluation is reached, carrying one hostile value (symbol / variable indexes 0,27,28,1023,1024,last+1,2^31,2^32,2^63-1,2^63,2^64-1; boundary ints and dates; 64 KiB byte arrays; sets of every kind incl. byte arrays, duplicates, empty, nested, mixed, 1000 elements; empty oneofs) in one of 8 placements (authority fact, later-block fact, matching body constant, repeated variable, rule head, check constant, operand of every binary / unary operator); (b) 20 structural hostilities (unbound head variables with 0/1/50 matches, malformed and 1001-deep expressions, operators without kind, unknown enum numbers, invalid/huge regexes, string concatenation bombs, 10^4 symbols, repeated symbols, variables in facts, missing required fields, unknown fields, explosive joins) and 10 envelope hostilities (secret/seal lengths 0..65, key/signature lengths, algorithm numbers, missing fields); (c) random bytes, bit flips, truncations and splices of sample tokens. Default 2 ms limits are kept. " +
+		Rule: "each input goes through the whole pipeline under recover, in isolated worker processes whose journal attributes a process death (panic on a library goroutine) to the input: Unmarshal -> String, Code, Checks, GetContext, BlockCount, RootKeyID, RevocationIds, Serialize, GetBlockID -> AuthorizerFor (signer root, random key, key map), Authorizer -> AddFact/Rule/Check/Policy, SerializePolicies, Authorize x2, Query, PrintWorld, Reset, Authorize -> CreateBlock/Append/Seal (+ re-verify) -> LoadPolicies on the same bytes. Inputs: (a) schema-valid tokens written by the independent writer R3 and VALIDLY SIGNED with an attacker root so that evaluation is reached, carrying one hostile value (symbol / variable indexes 0,27,28,1023,1024,last+1,2^31,2^32,2^63-1,2^63,2^64-1; boundary ints and dates; 64 KiB byte arrays; sets of every kind incl. byte arrays, duplicates, empty, nested, mixed, 1000 elements; empty oneofs) in one of 8 placements (authority fact, later-block fact, matching body constant, repeated variable, rule head, check constant, operand of every binary / unary operator); (b) 20 structural hostilities (unbound head variables with 0/1/50 matches, malformed and 1001-deep expressions, operators without kind, unknown enum numbers, invalid/huge regexes, string concatenation bombs, 3000 symbols, repeated symbols, variables in facts, missing required fields, unknown fields, explosive joins) and 10 envelope hostilities (secret/seal lengths 0..65, key/signature lengths, algorithm numbers, missing fields); (c) random bytes, bit flips, truncations and splices of sample tokens. Default 2 ms limits are kept. " +
 			"Non-trivial = distinct structured inputs that pass Unmarshal and AuthorizerFor (evaluation reached).",
 		Assumptions: []string{"keys presented are 32 bytes (the property's domain)", "worker address space is capped; an out-of-memory death counts only if it reproduces"},
 		NumCases: func(tier string) int {
